@@ -47,7 +47,7 @@ theorem invP_perm {g sh P P' log log'} (h : InvP g sh P log) (hp : P.Perm P') : 
 /-- The first instruction of an API call does not own or assume anything. -/
 theorem invP_call {g sh P log} (h : InvP g sh P log) (c : Call) : InvP g sh (startCall c ++ P) log := by
   have hstart : ∀ j ∈ startCall c, owns 0 j = false ∧ openOnly j = false ∧ closedOnly j = false ∧
-      forcedOnly j = false ∧ zeroRef j = none ∧ j ≠ .runlock ∧ (∀ id, owns id j = false) ∧
+      forcedOnly j = false ∧ zeroRef g j = none ∧ j ≠ .runlock ∧ (∀ id, owns id j = false) ∧
       (∀ id, holdsVal id j = false) := by
     intro j hj
     cases c <;> simp only [startCall, List.mem_singleton] at hj <;> subst hj <;>
@@ -111,7 +111,7 @@ theorem wb_noOpen {t : List Instr} (hw : WB t) (hr : Instr.runlock ∉ t) : ∀ 
       | true => exact absurd (List.mem_cons_of_mem _ (ha hb)) hr
     · exact ih ht (fun hm => hr (List.mem_cons_of_mem _ hm)) j hj
 
-theorem inv_init (g : Bool) (clr : Bool) (capacity nthreads : Nat) : Inv g (Sys.initCfg clr capacity nthreads) := by
+theorem inv_init (g : Bool) (clr : Cfg) (capacity nthreads : Nat) : Inv g (Sys.initCfg clr capacity nthreads) := by
   have hp : pending (Sys.initCfg clr capacity nthreads) = [] := by
     unfold pending Sys.initCfg
     induction nthreads with
